@@ -78,6 +78,10 @@ func cur() *Sched {
 // park registers the calling thread's pending operation and blocks until the
 // scheduler has performed it. It returns the alternative that was taken.
 func (s *Sched) park(t *thread, o *op) int {
+	if s.aborting {
+		// a deferred call of a thread that is being unwound: keep unwinding
+		panic(abortT{})
+	}
 	t.op = o
 	s.wake <- struct{}{}
 	<-t.resume
@@ -153,6 +157,20 @@ func Yield() {
 	}
 	s := cur()
 	s.park(s.me(), &op{desc: "yield", alts: func() []int { return []int{0} }, do: func(int) {}})
+}
+
+// Touch is the scheduling point vrewrite -globals inserts before a statement
+// that mentions a written package-level variable. Outside a controlled
+// execution (package initialisation, reference computations) it does nothing.
+func Touch(name string) {
+	if Free {
+		return
+	}
+	s := current
+	if s == nil || s.cur < 0 || s.aborting {
+		return
+	}
+	s.park(s.me(), &op{desc: "touch(" + name + ")", alts: func() []int { return []int{0} }, do: func(int) {}})
 }
 
 // Invariant registers a predicate evaluated after every step; a non-empty
